@@ -12,7 +12,8 @@ META = {
             "incl. the identity public key); hashes as each scheme permits; DSS modes x encodings; PSS salt lengths 0..max and custom MGF; "
             "EdDSA pure/prehash/context. Candidate signatures: genuine; generic mutations (flip, truncate, extend, other message, other "
             "key); scheme-specific constructions (r or s in {0, q, q+d, 2^bits-1}, (r, q-s), DER with leading zero / long form / indefinite / "
-            "trailing bytes / negative / wrong tag / 3 members; EdDSA S+L, S=L, non-canonical R/A (y >= p, x=0 with sign bit, stray bits), R "
+            "trailing bytes / negative / wrong tag / 3 members; ECDSA pairs crafted for a derived key (s of chosen byte length, d solved from s = k^-1(z + r d)) so that "
+            "the DER body takes lengths sign() never produces, incl. 127/128 on P-521; EdDSA S+L, S=L, non-canonical R/A (y >= p, x=0 with sign bit, stray bits), R "
             "off curve, length +-1; RSA signatures EM^d mod n for crafted encoded messages: wrong trailer, top bits set, PS non-zero, missing "
             "01, salt length off by one, missing/duplicated NULL, BER long-form DigestInfo, short PS, 00 02 header, trailing garbage), "
             "signatures >= n, wrong length. Oracle: pure-Python verifiers written from FIPS 186-4 / RFC 8017 / RFC 8032 (soundness only: "
@@ -452,9 +453,25 @@ def strat_dss(draw, tier):
     else:
         kind = draw(st.sampled_from(keys.NIST))
         h = draw(st.sampled_from(CURVE_HASHES[kind]))
+    if isinstance(kind, str) and draw(st.integers(0, 5)) == 0:
+        # crafted signatures (see s_len below), with the DER-form candidates and the curve whose signatures straddle the 127/128-byte body over-represented
+        if draw(st.booleans()):
+            # the only place where a DSS signature body reaches the short/long-form boundary of the DER length: P-521 with len(s) around 57
+            kind = "p521"
+            return {"kind": kind, "hash": draw(st.sampled_from(CURVE_HASHES[kind])), "mode": "fips-186-3", "encoding": "der", "msg": draw(st.binary(max_size=60)),
+                    "pos": draw(st.integers(0, 10 ** 6)), "seed": draw(st.binary(min_size=8, max_size=8)), "s_len": draw(st.sampled_from([56, 57, 57, 58, 58, 59])),
+                    "cand": draw(st.sampled_from(["der-longform", "der-longform", "der-longform", "genuine", "der-nonminimal-len", "der-trailing", "flip"]))}
+        return {"kind": kind, "hash": h, "mode": "fips-186-3", "encoding": draw(st.sampled_from(["binary", "der", "der", "der"])),
+                "msg": draw(st.binary(max_size=60)), "pos": draw(st.integers(0, 10 ** 6)), "seed": draw(st.binary(min_size=8, max_size=8)),
+                "cand": draw(st.sampled_from(["genuine", "der-longform", "der-longform", "der-longform", "der-nonminimal-len", "der-leading-zero", "der-trailing",
+                                              "der-indefinite", "flip", "s-negated", "extend", "other-msg"])),
+                "s_len": draw(st.one_of(st.integers(1, 66), st.sampled_from([55, 56, 57, 58])))}
     return {"kind": kind, "hash": h, "mode": draw(st.sampled_from(["fips-186-3", "deterministic-rfc6979"])), "encoding": draw(st.sampled_from(["binary", "der"])),
             "msg": draw(st.binary(max_size=60)), "cand": draw(st.sampled_from(DSS_CANDS)), "pos": draw(st.integers(0, 10 ** 6)),
-            "seed": draw(st.binary(min_size=8, max_size=8))}
+            "seed": draw(st.binary(min_size=8, max_size=8)),
+            # s_len > 0 (branch above): a signature with an s of chosen byte length, valid for a key derived from it (see run_dss); the DER body then
+            # takes lengths that sign() never produces, among them 127/128 where the length octets change form (P-521: len(s) = 56..58)
+            "s_len": 0}
 
 
 def ref_dss_verify(desc, digest, r, s):
@@ -519,8 +536,29 @@ def run_dss(case, rec):
             raise Violation("dss/deterministic-not-repeatable", "second deterministic signature differs", **info)
     r, s = rs
     pos = case["pos"]
+    crafted = False
+    if case.get("s_len") and desc["type"] == "ec":
+        # (r, s) with len(s) = s_len bytes (top bit clear), made valid by solving s = k^-1 (z + r d) for the private key d
+        import hashlib
+        from Crypto.PublicKey import ECC
+        c_ = desc["curve"]
+        sl = min(case["s_len"], ob)
+        kk_ = 1 + int.from_bytes(hashlib.sha512(b"c04-craft" + case["seed"]).digest() * 2, "big") % (q - 1)
+        s_ = (1 << (8 * sl - 2)) + int.from_bytes(hashlib.sha512(b"c04-s" + case["seed"]).digest() * 2, "big") % (1 << (8 * sl - 2))
+        R_ = ec.ws_mul(c_, kk_, (c_["Gx"], c_["Gy"]))
+        r_ = R_[0] % q
+        d_ = (s_ * kk_ - ec.bits2int(digest, q.bit_length())) * pow(r_, -1, q) % q if r_ and s_ < q else 0
+        if d_:
+            kobj = ECC.construct(curve=kind, d=d_)
+            desc = {"type": "ec", "curve": c_, "d": d_, "Q": ec.ws_mul(c_, d_, (c_["Gx"], c_["Gy"])), "order": q}
+            r, s, crafted = r_, s_, True
+            sig = r.to_bytes(ob, "big") + s.to_bytes(ob, "big") if enc_ == "binary" else der.enc_seq([der.enc_int(r), der.enc_int(s)])
+            info["crafted_s_len"] = sl
+            if not ec.ecdsa_verify(c_, desc["Q"], digest, r, s):
+                raise Skip()      # cannot happen; guards the construction, not the library
+            rec.event("dss:crafted:%s:der-body-%s" % (cand, "127-128" if enc_ == "der" and len(sig) - (2 if len(sig) < 130 else 3) in (127, 128) else "other"))
     vkey_obj, vdesc, vmsg = kobj, desc, msg
-    genuine = cand == "genuine"
+    genuine = cand == "genuine" and not crafted
 
     def encode(r_, s_):
         if enc_ == "binary":
